@@ -1808,3 +1808,139 @@ package connect
 //@     invariant len(e.details) == len(wire.Details) && 0 - 1 <= rangeindex && sl_arr(e.details) != sl_arr(wire.Details)
 //@     invariant forall i int :: {e.details[i]} {wire.Details[i]} 0 <= i && i <= rangeindex ==> e.details[i] == wire.Details[i]
 //@     assigns elems(e.details)
+
+// ---------------------------------------------------------------------------
+// client_stream.go / handler_stream.go: the typed views of a stream. Each call
+// goes to the connection exactly once with the caller's message (C01), a
+// failed construction is reported by every call, and Err hides exactly the
+// clean end of stream - any other error, coded or not, is surfaced (C04, C07).
+// ---------------------------------------------------------------------------
+
+//@ func (*ClientStream).Receive(c) res
+//@   tags C01, C04, C07
+//@   requires c != nil && (c.err == nil ==> c.conn != nil)
+//@   assigns everything
+//@   ensures old(c.err) != nil ==> !res && c.err == old(c.err) && !called("StreamingHandlerConn.Receive", 1)   // label: after-the-first-error-nothing-more-is-read
+//@   ensures old(c.err) == nil ==> called("StreamingHandlerConn.Receive", 1) && res == (callres("StreamingHandlerConn.Receive", 1) == nil)   // label: one-receive-per-call
+//@ func (*ClientStream).Err(c) res
+//@   tags C04, C07
+//@   requires c != nil
+//@   assigns nothing
+//@   ensures c.err == nil || Is(c.err, io.EOF) ==> res == nil
+//@   ensures c.err != nil && !Is(c.err, io.EOF) ==> res == c.err   // label: only-a-clean-end-of-stream-is-hidden
+
+//@ func (*ServerStreamForClient).Receive(s) res
+//@   tags C01, C04, C06
+//@   requires s != nil && (s.constructErr == nil && s.receiveErr == nil ==> s.conn != nil)
+//@   assigns everything
+//@   ensures old(s.constructErr) != nil || old(s.receiveErr) != nil ==> !res && !called("StreamingClientConn.Receive", 1)   // label: after-the-first-error-nothing-more-is-read
+//@   ensures old(s.constructErr) == nil && old(s.receiveErr) == nil ==> called("StreamingClientConn.Receive", 1) && res == (callres("StreamingClientConn.Receive", 1) == nil)   // label: one-receive-per-call
+//@ func (*ServerStreamForClient).Err(s) res
+//@   tags C04, C06
+//@   requires s != nil
+//@   assigns nothing
+//@   ensures s.constructErr != nil ==> res == s.constructErr
+//@   ensures s.constructErr == nil && (s.receiveErr == nil || Is(s.receiveErr, io.EOF)) ==> res == nil
+//@   ensures s.constructErr == nil && s.receiveErr != nil && !Is(s.receiveErr, io.EOF) ==> res == s.receiveErr   // label: only-a-clean-end-of-stream-is-hidden
+
+//@ func (*ClientStreamForClient).Send(c, request) res
+//@   tags C01, C02
+//@   requires c != nil && (c.err == nil ==> c.conn != nil)
+//@   assigns everything
+//@   ensures old(c.err) != nil ==> res == old(c.err) && !called("StreamingClientConn.Send", 1)
+//@   ensures old(c.err) == nil ==> res == callres("StreamingClientConn.Send", 1)   // label: one-send-per-call-result-passed-through
+//@   assert@call(StreamingClientConn.Send#1): arg1 == request   // label: the-caller's-message-is-sent
+//@ func (*ClientStreamForClient).CloseAndReceive(c) (res, err)
+//@   tags C02, C04
+//@   requires c != nil && (c.err == nil ==> c.conn != nil)
+//@   assigns everything
+//@   ensures old(c.err) != nil ==> err == old(c.err) && res == nil
+//@   ensures called("receiveUnaryResponse", 1) && callres("receiveUnaryResponse", 1, 1) != nil ==> err == callres("receiveUnaryResponse", 1, 1) && res == nil   // label: the-server's-error-is-returned-never-a-response
+//@   ensures called("StreamingClientConn.CloseRequest", 1) && callres("StreamingClientConn.CloseRequest", 1) != nil ==> err == callres("StreamingClientConn.CloseRequest", 1) && res == nil
+
+//@ func (*BidiStreamForClient).Send(b, msg) res
+//@   tags C01
+//@   requires b != nil && (b.err == nil ==> b.conn != nil)
+//@   assigns everything
+//@   ensures old(b.err) != nil ==> res == old(b.err) && !called("StreamingClientConn.Send", 1)
+//@   ensures old(b.err) == nil ==> res == callres("StreamingClientConn.Send", 1)
+//@   assert@call(StreamingClientConn.Send#1): arg1 == msg   // label: the-caller's-message-is-sent
+//@ func (*BidiStreamForClient).Receive(b) (res, err)
+//@   tags C01, C04
+//@   requires b != nil && (b.err == nil ==> b.conn != nil)
+//@   assigns everything
+//@   ensures old(b.err) != nil ==> err == old(b.err) && res == nil
+//@   ensures old(b.err) == nil && callres("StreamingClientConn.Receive", 1) != nil ==> err == callres("StreamingClientConn.Receive", 1) && res == nil   // label: a-failed-receive-delivers-no-message
+//@   ensures old(b.err) == nil && callres("StreamingClientConn.Receive", 1) == nil ==> err == nil && res != nil
+
+//@ func (*ServerStream).Send(s, msg) res
+//@   tags C01
+//@   requires s != nil && s.conn != nil
+//@   assigns everything
+//@   ensures msg != nil ==> res == callres("StreamingHandlerConn.Send", 1)
+//@   assert@call(StreamingHandlerConn.Send#1): arg1 == msg   // label: the-handler's-message-is-sent
+//@ func (*BidiStream).Receive(b) (res, err)
+//@   tags C01, C04
+//@   requires b != nil && b.conn != nil
+//@   assigns everything
+//@   ensures callres("StreamingHandlerConn.Receive", 1) != nil ==> err == callres("StreamingHandlerConn.Receive", 1) && res == nil   // label: a-failed-receive-delivers-no-message
+//@   ensures callres("StreamingHandlerConn.Receive", 1) == nil ==> err == nil && res != nil
+//@ func (*BidiStream).Send(b, msg) res
+//@   tags C01
+//@   requires b != nil && b.conn != nil
+//@   assigns everything
+//@   ensures msg != nil ==> res == callres("StreamingHandlerConn.Send", 1)
+//@   assert@call(StreamingHandlerConn.Send#1): arg1 == msg
+//@ constfield ClientStreamForClient.conn, ClientStreamForClient.err, ServerStreamForClient.conn, ServerStreamForClient.constructErr, BidiStreamForClient.conn, BidiStreamForClient.err, ClientStream.conn, ServerStream.conn, BidiStream.conn
+
+// handler.go: every protocol handler is built from the handler's
+// configuration: the Spec of this stream type, the configured codecs and
+// compression pools, and the configured limits (C09: WithReadMaxBytes, C08:
+// WithCompressMinBytes reach the protocol layer unchanged).
+//@ trusted func protocol.NewHandler(p, params) res
+//@   assigns nothing
+//@   ensures res != nil
+//@ trusted func newReadOnlyCodecs(nameToCodec) res
+//@   assigns nothing
+//@   ensures res != nil
+//@ trusted func newReadOnlyCompressionPools(nameToPool, reversedNames) res
+//@   assigns nothing
+//@   ensures res != nil
+//@ func (*handlerConfig).newProtocolHandlers(c, streamType) res
+//@   tags C09, C08, C12
+//@   requires c != nil
+//@   assigns nothing
+//@   assert@call(protocol.NewHandler): arg1 != nil && arg1.Spec.Procedure == c.Procedure && arg1.Spec.StreamType == streamType && !arg1.Spec.IsClient && arg1.ReadMaxBytes == c.ReadMaxBytes && arg1.CompressMinBytes == c.CompressMinBytes && arg1.BufferPool == c.BufferPool && arg1.Codecs == callres("newReadOnlyCodecs", 1) && arg1.CompressionPools == callres("newReadOnlyCompressionPools", 1)   // label: protocol-handlers-get-the-configured-spec-codecs-pools-and-limits
+//@   assert@call(newReadOnlyCodecs#1): arg0 == c.Codecs
+//@   assert@call(newReadOnlyCompressionPools#1): arg0 == c.CompressionPools
+//@   loop 1:
+//@     invariant true
+//@     assigns elems(handlers)
+
+// option.go: the limit options set exactly their field (C09, C08)
+//@ func WithReadMaxBytes(max) res
+//@   tags C09
+//@   ensures fresh(res) && typeis(res, "*readMaxBytesOption") && cast(res, "*readMaxBytesOption").Max == max
+//@ func (*readMaxBytesOption).applyToHandler(o, config)
+//@   tags C09
+//@   requires o != nil && config != nil
+//@   assigns config.ReadMaxBytes
+//@   ensures config.ReadMaxBytes == o.Max   // label: the-handler-limit-is-the-option's
+//@ func (*readMaxBytesOption).applyToClient(o, config)
+//@   tags C09
+//@   requires o != nil && config != nil
+//@   assigns config.ReadMaxBytes
+//@   ensures config.ReadMaxBytes == o.Max   // label: the-client-limit-is-the-option's
+//@ func WithCompressMinBytes(min) res
+//@   tags C08
+//@   ensures fresh(res) && typeis(res, "*compressMinBytesOption") && cast(res, "*compressMinBytesOption").Min == min
+//@ func (*compressMinBytesOption).applyToHandler(o, config)
+//@   tags C08
+//@   requires o != nil && config != nil
+//@   assigns config.CompressMinBytes
+//@   ensures config.CompressMinBytes == o.Min
+//@ func (*compressMinBytesOption).applyToClient(o, config)
+//@   tags C08
+//@   requires o != nil && config != nil
+//@   assigns config.CompressMinBytes
+//@   ensures config.CompressMinBytes == o.Min
